@@ -705,6 +705,10 @@ var scanCases = []struct {
 	{"a[1]", []string{"a1"}, []string{"a[1]", "a"}},
 	{"a\\[1]", []string{"a[1]"}, []string{"a1"}},
 	{"k[bce]y", []string{"kby", "key"}, []string{"kay", "k[bce]y"}},
+	{"[]a]", []string{"]", "a"}, []string{"b", "[]a]"}},
+	{"[a-]", []string{"a", "-"}, []string{"b"}},
+	{"a\\", []string{"a\\"}, []string{"a"}},
+	{"[^a-]x", []string{"bx"}, []string{"ax", "-x"}},
 }
 
 // scanBurst fills one collection with more elements than a default page holds (10), the ones the
